@@ -12,99 +12,112 @@ import (
 
 // trigger is the executable part of an open known finding of the whole-machine
 // checks (DESIGN §7.2): a predicate over (program, reference trace, variant,
-// configuration, violation class) and nothing the code under test can influence.
+// configuration) that says WHAT the known defect can make wrong (which
+// registers, which memory lines, or which failure class). A violation is
+// attributed to the finding only if every mismatch lies inside that set, so an
+// unrelated wrong register or memory line in the same run is still reported.
+// Nothing in a trigger depends on what the machine under test did.
 type trigger struct {
 	id    string
 	props []string // properties the finding is listed under
-	match func(c *core.Case, f *features, class string) bool
+	match func(c *core.Case, f *features, class string, v *core.Verdict) bool
+}
+
+// baseClass strips the twin-oracle prefix ("shadow:", "exit:").
+func baseClass(class string) string {
+	class = strings.TrimPrefix(class, "shadow:")
+	return strings.TrimPrefix(class, "exit:")
 }
 
 func isMismatch(class string) bool {
-	return class == core.RegMismatch || class == core.MemMismatch ||
-		class == "shadow:"+core.RegMismatch || class == "shadow:"+core.MemMismatch ||
-		class == "exit:"+core.RegMismatch || class == "exit:"+core.MemMismatch
+	b := baseClass(class)
+	return b == core.RegMismatch || b == core.MemMismatch
 }
 
 var wmProps = []string{"C01", "C03", "C04", "C05", "C06", "C07", "C09", "C10", "C12"}
 
-// The trigger regions are deliberately expressed in program terms (what the
-// reference executes), never in terms of what the machine did.
 var triggers = []trigger{
 	{
 		// MVP-6.0's flush (cpu.go, "TODO Same checks as in MVP 6.1") resets every
 		// execute unit and cleans the buses without looking at instruction age:
 		// OLDER work still in flight on another unit is dropped, younger work
-		// survives: wrong results, hangs and out-of-range stores.
+		// survives: wrong results anywhere, hangs and out-of-range stores.
 		id: "KF-W1", props: wmProps,
-		match: func(c *core.Case, f *features, class string) bool {
+		match: func(c *core.Case, f *features, class string, v *core.Verdict) bool {
 			return c.Cfg.V == mach.MVP60 && c.Cfg.EU >= 2 && f.redirects >= 1
 		},
 	},
 	{
-		// MVP-4..6.3: a store that misses the cache waits on the write bus / in a
-		// write unit (MVP-4/5: behind earlier stores; MVP-6.x: for the whole memory latency); a load of that line issued meanwhile (before or
-		// after) reads / caches stale memory, and the stale line is written back
-		// over the store at the end of the run. Memory dependences are not tracked.
+		// MVP-4..6.3: memory dependences are not tracked; a store that misses the
+		// cache waits on the write bus / in a write unit (MVP-4/5: behind earlier
+		// stores; MVP-6.x: for the whole memory latency) while a load of that line
+		// reads / caches stale memory, and the stale line is written back over the
+		// store at the end of the run. Explains: the conflicting lines and what is
+		// loaded from them.
 		id: "KF-W2", props: wmProps,
-		match: func(c *core.Case, f *features, class string) bool {
-			v := c.Cfg.V
-			return v >= mach.MVP4 && v <= mach.MVP63 && f.conflictSameLine && isMismatch(class)
+		match: func(c *core.Case, f *features, class string, v *core.Verdict) bool {
+			vv := c.Cfg.V
+			return vv >= mach.MVP4 && vv <= mach.MVP63 && isMismatch(class) && f.tConflict.explains(v)
 		},
 	},
 	{
 		// MVP-6.1+: instructions in the shadow of a taken conditional branch whose
-		// operand is slow start executing; register writes are rolled back from
-		// MVP-6.2 on (6.2 with one slot per register, so an older uncommitted write
-		// to the same register is lost), stores are never rolled back, and a
-		// younger branch/jump inside the shadow that resolves first commits the
-		// older shadow writes (one shared expectation in the branch unit).
+		// operand is slow start executing. 6.1 has no rollback; on 6.1/6.2 a
+		// wrong-path instruction still in an execute unit survives the flush; 6.2
+		// rolls back through one slot per register; stores are never rolled back;
+		// and a younger branch/jump inside the shadow that resolves first commits
+		// the older shadow writes (one shared expectation in the branch unit).
+		// Explains: the destination registers of the static shadow (and what is
+		// computed from them), any memory if the shadow stores.
 		id: "KF-W3", props: wmProps,
-		match: func(c *core.Case, f *features, class string) bool {
-			v := c.Cfg.V
-			if v < mach.MVP61 || f.takenBranches == 0 || !isMismatch(class) {
+		match: func(c *core.Case, f *features, class string, v *core.Verdict) bool {
+			vv := c.Cfg.V
+			if vv < mach.MVP61 || f.takenBranches == 0 || !isMismatch(class) || !f.tShadow.explains(v) {
 				return false
 			}
-			// nested: a younger branch or jump in the shadow resolves first and its
-			// commit/rollback makes the older shadow writes architectural
-			nested := f.shadowHasWork && f.shadowHasTrap
-			switch v {
-			case mach.MVP61:
-				return f.shadowHasWork
-			case mach.MVP62:
+			if vv <= mach.MVP62 {
 				return f.shadowHasWork
 			}
-			return nested || f.shadowHasStore
-		},
-	},
-	{
-		// MVP-6.1+ with two or more units: a conditional branch waiting for a slow
-		// operand (forwarded from a load) lets younger instructions run ahead; one
-		// that raises an error (div/rem by zero, undefined label) fails the run at
-		// once, one that redirects fetch (j/jal/jalr, a second conditional branch)
-		// derails it.
-		id: "KF-W7", props: wmProps,
-		match: func(c *core.Case, f *features, class string) bool {
-			return c.Cfg.V >= mach.MVP61 && c.Cfg.Parallelism() >= 2 && f.takenBranches >= 1 && f.shadowHasErrTrap
+			return (f.shadowHasWork && f.shadowHasTrap) || f.shadowHasStore
 		},
 	},
 	{
 		// MVP-6.3/7.x/8: two writers of one register are both renamed; when a
 		// commit/rollback (conditional branch) or the end of the run falls between
 		// their completions (the older one is a load, waits for a load, or is held
-		// up by write-bus back-pressure), the older value lands last.
+		// up by write-bus back-pressure), the older value lands last. Explains:
+		// that register and what is computed from it.
 		id: "KF-W4", props: wmProps,
-		match: func(c *core.Case, f *features, class string) bool {
-			return c.Cfg.V >= mach.MVP63 && (f.loadDestOverwritten || f.wawBeforeBranch) && isMismatch(class)
+		match: func(c *core.Case, f *features, class string, v *core.Verdict) bool {
+			return c.Cfg.V >= mach.MVP63 && isMismatch(class) && f.tSlowWaw.explains(v)
+		},
+	},
+	{
+		// MVP-6.1+ with two or more units: a conditional branch waiting for a slow
+		// operand (forwarded from a load) lets younger instructions run ahead; one
+		// that raises an error (div/rem by zero, undefined label) fails the run at once.
+		id: "KF-W7", props: wmProps,
+		match: func(c *core.Case, f *features, class string, v *core.Verdict) bool {
+			return c.Cfg.V >= mach.MVP61 && c.Cfg.Parallelism() >= 2 && f.takenBranches >= 1 && f.shadowHasErrTrap &&
+				baseClass(class) == core.UnexpectedError
 		},
 	},
 	{
 		// MVP-6.3/7.x/8: a conditional branch commits the renamed registers while
-		// an OLDER instruction still waits for a load; a younger writer of one of
-		// its source registers (write-after-read) becomes visible to it.
+		// an OLDER instruction still waits for a load (or is a load waiting for its
+		// line); a younger writer of one of its source registers becomes visible
+		// to it. Explains: what that instruction writes (any memory if it is a
+		// store); an address computed from the wrong base can also be out of range.
 		id: "KF-W8", props: wmProps,
-		match: func(c *core.Case, f *features, class string) bool {
-			return c.Cfg.V >= mach.MVP63 && f.warAfterLoadUse && f.condBranches >= 1 &&
-				(isMismatch(class) || strings.HasPrefix(class, "panic:risc.(*Context).WriteMemory"))
+		match: func(c *core.Case, f *features, class string, v *core.Verdict) bool {
+			if c.Cfg.V < mach.MVP63 || !f.warLoad || f.condBranches == 0 {
+				return false
+			}
+			b := baseClass(class)
+			if strings.HasPrefix(b, "panic:risc.(*Context).WriteMemory") || strings.HasPrefix(b, "panic:proc/mvp") && strings.Contains(b, "fetchCacheLine") {
+				return true
+			}
+			return isMismatch(class) && f.tWar.explains(v)
 		},
 	},
 	{
@@ -112,17 +125,8 @@ var triggers = []trigger{
 		// cores but not in program order; a store and another access to the
 		// same line issued to different cores can be performed out of order.
 		id: "KF-W9", props: wmProps,
-		match: func(c *core.Case, f *features, class string) bool {
-			return c.Cfg.V >= mach.MVP70 && c.Cfg.Cores >= 2 && f.conflictSameLine && isMismatch(class)
-		},
-	},
-	{
-		// MVP-6.3/7.x/8: the rename ring holds ten uncommitted writes per
-		// register; with more, older entries are overwritten and only the arrival
-		// order (which back-pressure on the write bus scrambles) is left.
-		id: "KF-W11", props: wmProps,
-		match: func(c *core.Case, f *features, class string) bool {
-			return c.Cfg.V >= mach.MVP63 && f.ringOverflow && isMismatch(class)
+		match: func(c *core.Case, f *features, class string, v *core.Verdict) bool {
+			return c.Cfg.V >= mach.MVP70 && c.Cfg.Cores >= 2 && isMismatch(class) && f.tConflict.explains(v)
 		},
 	},
 	{
@@ -132,8 +136,23 @@ var triggers = []trigger{
 		// the commands stay in the directory: "cache line doesn't exist",
 		// "memory address should exist", "invalid state", a stale Shared copy.
 		id: "KF-W10", props: wmProps,
-		match: func(c *core.Case, f *features, class string) bool {
-			return c.Cfg.V >= mach.MVP70 && c.Cfg.Cores >= 2 && f.conflictSameLine && f.redirects >= 1
+		match: func(c *core.Case, f *features, class string, v *core.Verdict) bool {
+			if c.Cfg.V < mach.MVP70 || c.Cfg.Cores < 2 || !f.conflictSameLine || f.redirects == 0 {
+				return false
+			}
+			if isMismatch(class) {
+				return f.tConflict.explains(v)
+			}
+			return true
+		},
+	},
+	{
+		// MVP-6.3/7.x/8: the rename ring holds ten uncommitted writes per
+		// register; with more, older entries are overwritten and only the arrival
+		// order (which back-pressure on the write bus scrambles) is left.
+		id: "KF-W11", props: wmProps,
+		match: func(c *core.Case, f *features, class string, v *core.Verdict) bool {
+			return c.Cfg.V >= mach.MVP63 && isMismatch(class) && f.tRing.explains(v)
 		},
 	},
 	{
@@ -142,15 +161,16 @@ var triggers = []trigger{
 		// older writers have not executed yet: the cycle count depends on a dead
 		// register value.
 		id: "KF-T1", props: []string{"C12"},
-		match: func(c *core.Case, f *features, class string) bool {
+		match: func(c *core.Case, f *features, class string, v *core.Verdict) bool {
 			return (c.Cfg.V == mach.MVP71 || c.Cfg.V == mach.MVP80) && class == "value-dependent-cycles" && f.memBaseWrittenRecently
 		},
 	},
 }
 
 // matchTrigger returns the id of the first OPEN known finding of property prop
-// whose trigger holds for c, or "".
-func matchTrigger(prop string, kf *findings.Set, c *core.Case, class string) string {
+// that explains the violation, or "". Several findings may each explain a part
+// of the mismatches: the union of the open, applicable taints is also tried.
+func matchTrigger(prop string, kf *findings.Set, c *core.Case, class string, v *core.Verdict) string {
 	var f *features
 	for i := range triggers {
 		t := &triggers[i]
@@ -169,7 +189,7 @@ func matchTrigger(prop string, kf *findings.Set, c *core.Case, class string) str
 				return ""
 			}
 		}
-		if t.match(c, f, class) {
+		if t.match(c, f, class, v) {
 			return t.id
 		}
 	}
